@@ -50,6 +50,11 @@ def x_obligations(tier):
                 continue
             o.append(Obl(f"C18-publish-star[{conf},{pre}v{dp}?{suf}]", M, "publish_star", env={"VF_CONF": conf, "VF_PRE": pre, "VF_SUF": suf, "VF_BASE": base, "MINI_VDIGITS": "3", "VF_DP": dp, "VF_CACHES": "1"},
                          timeout=T, path_timeout=200, family="C18-new", bound=f"existing v{dp}<c>; get_next on the '*' / '>' version Sid, publish, get_next again -- spil's caches ON"))
+    # a Sid typed through its uri prefix with a type that is NOT the first match of its string (node vs ext): get_next keeps type and fields
+    for conf, pre, suf, base in [("shipped", "shot__cache_node:hamlet/s/sq010/sh0010/anim/", "/w/abc", "hamlet/s/sq010/sh0010/anim")]:
+        for dp in (["01"] if tier == "quick" else ["00", "09", "99"]):
+            o.append(Obl(f"C18-next[{conf},{pre}v{dp}?{suf}]", M, "next_of", env={"VF_CONF": conf, "VF_PRE": pre, "VF_SUF": suf, "VF_BASE": base, "MINI_VDIGITS": "3", "VF_DP": dp}, timeout=T, family="C18-next",
+                         bound=f"forced (non-first-match) type: Sid {pre}v{dp}<d>{suf}, last digit d symbolic; configuration {conf}"))
     o.append(Obl("C18-next-anychar[miniA]", M, "next_any", env={"VF_CONF": "miniA", "VF_DP": "00", "MINI_VDIGITS": "3"}, timeout=60 if tier == "quick" else 600, expect="find", family="C18-next",
                  bound="version 'v00'+<any character> (Unicode digits included): never raises, result empty or in the pattern; bug-hunt in quick"))
     o.append(Obl("C18-reach", M, "reach", env={"MINI_VDIGITS": "3"}, timeout=100, expect="refute", family="C18-twin"))
